@@ -292,7 +292,7 @@ func (m *C03) acceptUndelegate(w *ops.World, st *ops.Step) {
 	}
 	m.S.Eval("undelegate-accepted")
 	m.S.Case("accept|" + state + "|" + assetKind(w, st.Asset.ID))
-	if !st.Ack && (strings.Contains(st.Err, "overflow") || strings.Contains(st.Panic, "overflow")) {
+	if !st.Ack && (strings.Contains(st.Err, "overflow") || strings.Contains(st.Panic, "overflow") || strings.Contains(st.Err, "out of bound") || strings.Contains(st.Panic, "out of bound")) {
 		// checked-arithmetic overflow for astronomically large positions: its own signature
 		m.S.Violate("undelegate-refused", "arith-overflow", m.Hist, st.I, "undelegation within position refused by arithmetic overflow: %s %v", trunc(st.Err, 120), st.P)
 	} else if !st.Ack && strings.Contains(st.Err, "failed to obtain coinbase address") {
